@@ -890,7 +890,7 @@ class VM:
                     # An arrow function has no `this` of its own: it keeps the
                     # one of the code that creates it (and is no constructor)
                     js_func._lexical_this = frame.this_value
-                else:
+                elif not compiled_func.is_method:
                     # Create prototype object for the function
                     # In JavaScript, every function has a prototype property
                     prototype = JSObject(self._object_prototype())
@@ -2837,8 +2837,9 @@ class VM:
             while hasattr(constructor, "_original_func"):
                 args = list(constructor._bound_args) + args
                 constructor = constructor._original_func
-            if hasattr(constructor, "_lexical_this"):
-                raise JSTypeError("An arrow function is not a constructor")
+            if not hasattr(constructor, "_prototype"):
+                # arrow functions, methods and accessors of object literals
+                raise JSTypeError(f"{constructor.name or 'function'} is not a constructor")
             # Create new object; its prototype is the constructor's prototype
             # property, or Object.prototype if that is not an object
             obj = JSObject(self._object_prototype())
